@@ -404,11 +404,12 @@ Lemma step_open s hs t g slot p r w a tr c n :
   StepOk (mkWorld s hs) t g (Open slot p r w a tr c n).
 Proof.
   intros HF HH Hcl. cbn [op_classes] in Hcl.
-  apply app_eq_nil in Hcl as [Hv Hcl]. apply app_eq_nil in Hcl as [_ Hrc].
-  apply when_nil in Hv. apply negb_false_iff in Hv. apply when_nil in Hrc.
-  unfold StepOk. cbn [step sstep gone_after wfs whs]. unfold sopen. rewrite Hv. cbn [negb].
-  unfold open_file. rewrite (inv_fx _ _ _ HF p).
+  apply app_eq_nil in Hcl as [_ Hrc]. apply when_nil in Hrc.
   assert (Hh0 : HRel (hdel hs slot) (sdel (shs t) slot)) by (apply HRel_del; exact HH).
+  unfold StepOk. cbn [step sstep gone_after wfs whs]. unfold sopen, open_file.
+  destruct (valid_open r w a tr c n) eqn:Hv; cbn [negb];
+    [|cbn [fst snd wfs whs]; split; [split; [apply InvF_shs; exact HF|exact Hh0]|apply err_ok_refl]].
+  rewrite (inv_fx _ _ _ HF p).
   destruct (nget (names t) p) as [[|i]|] eqn:En.
   - (* a directory *)
     assert (Hpar : parent_is_dir t p = true) by (eapply inv_pc; eauto).
